@@ -34,6 +34,7 @@ type Result struct {
 	Labels   int // label pairs compared
 	Pairs    map[string]bool // callee pairs assumed (each is its own obligation)
 	Notes    []string
+	Opaque   []OpaqueWrite // writer arguments that are neither field, size nor constant, stored by the reader into a field
 	Tails    int // Available()-guarded tails evaluated (format-defined older/shorter messages)
 }
 
@@ -205,6 +206,13 @@ type Matcher struct {
 	// field is zero/empty)?
 	fieldAt map[*Prim]string
 	constAt map[*Prim]constEmit
+}
+
+// OpaqueWrite: the writer emits a computed value at a position the reader stores into Field.
+type OpaqueWrite struct {
+	WPos  token.Pos
+	Field string
+	Arg   string
 }
 
 type constEmit struct {
@@ -818,6 +826,9 @@ func isFieldLabel(l string) bool {
 }
 
 func (m *Matcher) checkLabels(st state, w, r Node, wl, rl string, wfr, rfr *frame, discard bool) {
+	if os.Getenv("WIRE_DEBUG") == "labels" {
+		fmt.Fprintf(os.Stderr, "labels wl=%q rl=%q\n", wl, rl)
+	}
 	if rp, ok := r.(*Prim); ok && isFieldLabel(rl) && !discard {
 		if wp, ok := w.(*Prim); ok {
 			switch {
@@ -828,6 +839,14 @@ func (m *Matcher) checkLabels(st state, w, r Node, wl, rl string, wfr, rfr *fram
 					m.constAt[rp] = constEmit{w: wp, wfr: wfr, rfr: rfr, label: rl}
 				}
 			}
+		}
+	}
+	if rp, ok := r.(*Prim); ok && strings.HasPrefix(rl, "recv.") && !discard && !isFieldLabel(wl) && !strings.HasPrefix(wl, "size:") {
+		if wp, ok := w.(*Prim); ok && wp.Const == nil && wp.Arg != nil && !isDefaultConst(wp) && m.computedArg(wfr, wp.Arg) {
+			// the reader restores a field from a position whose written value the analysis cannot name:
+			// the writer passes something other than a field, a size or a constant (a computed value)
+			m.Res.Opaque = append(m.Res.Opaque, OpaqueWrite{WPos: wp.Pos, Field: rl, Arg: types.ExprString(wp.Arg)})
+			_ = rp
 		}
 	}
 	if isFieldLabel(wl) {
@@ -842,6 +861,35 @@ func (m *Matcher) checkLabels(st state, w, r Node, wl, rl string, wfr, rfr *fram
 			}
 		}
 	}
+}
+
+// computedArg: the written expression is the result of a function of the module that is neither a
+// conversion nor one of the transparent wrappers (a value-transforming helper).
+func (m *Matcher) computedArg(fr *frame, e ast.Expr) bool {
+	e = stripConv(fr.ctx, e)
+	call, ok := e.(*ast.CallExpr)
+	if !ok {
+		return false
+	}
+	if tv, ok := fr.ctx.Info.Types[call.Fun]; ok && tv.IsType() {
+		return false
+	}
+	fn := calleeOf(fr.ctx.Info, call)
+	if fn == nil || fn.Pkg() == nil {
+		return false
+	}
+	// only functions of the analysed module with a body: getters returning a field are resolved by canonF already
+	cfi := m.X.P.FuncOf(fn)
+	if cfi == nil || cfi.Decl.Body == nil {
+		return false
+	}
+	if sig, ok := fn.Type().(*types.Signature); ok && sig.Recv() != nil {
+		return false // methods (getters, Size(), Keys()...) are handled by the label/size machinery
+	}
+	if len(call.Args) == 0 {
+		return false
+	}
+	return true
 }
 
 // isDefaultConst: the writer emits a literal default here (0, false, "", nil, empty literal).
